@@ -432,6 +432,21 @@ func (r *allocRun) setPools(cl vw.ClusterSpec) (*vw.Violation, bool) {
 		r.tr.Class("configuration-rejected")
 		return nil, false // edit produced an invalid configuration: the reconciler would not deliver it
 	}
+	// "every address lies in exactly one configured pool": a configuration in which two pools share an address
+	// (whatever notation each is written in) must not have been accepted
+	for i := range cl.Pools {
+		ai, _ := cl.Pools[i].Intervals()
+		for j := i + 1; j < len(cl.Pools); j++ {
+			bj, _ := cl.Pools[j].Intervals()
+			for _, x := range ai {
+				for _, y := range bj {
+					if x.Overlaps(y) {
+						return vw.Violationf("overlapping-pools-accepted", "the configuration was accepted although pools %s %v and %s %v share addresses (%v / %v)", cl.Pools[i].Name, cl.Pools[i].Addresses, cl.Pools[j].Name, cl.Pools[j].Addresses, x, y), false
+					}
+				}
+			}
+		}
+	}
 	r.a.SetPools(cfg.Pools)
 	r.cl = cl
 	// model: re-home or drop
@@ -476,9 +491,14 @@ func cloneHolders(h vw.Holders) vw.Holders {
 	return out
 }
 
+func judge02(want string) bool { return want == "" || want == "C02" }
+
 func runAlloc(c allocCase, tr *vw.Trace, want string) *vw.Violation {
 	r := &allocRun{a: New(func(string) {}), svcs: append([]vw.SvcSpec(nil), c.Svcs...), h: vw.Holders{}, bk: map[string]string{}, tr: tr, want: want}
-	if _, ok := r.setPools(c.Cluster); !ok {
+	if v, ok := r.setPools(c.Cluster); !ok {
+		if v != nil && judge02(want) {
+			return v
+		}
 		return nil
 	}
 	judge := func(p string) bool { return want == "" || want == p }
@@ -552,8 +572,11 @@ func runAlloc(c allocCase, tr *vw.Trace, want string) *vw.Violation {
 			}
 			delete(r.h, k)
 		case "setpools":
-			if _, ok := r.setPools(*op.Cluster); ok {
+			v, ok := r.setPools(*op.Cluster)
+			if ok {
 				tr.Class("setpools")
+			} else if v != nil && judge02(want) {
+				return v
 			}
 		case "respec":
 			op.Spec.NS, op.Spec.Name = s.NS, s.Name
